@@ -456,10 +456,13 @@ def discharge(ob, timeout_ms=10000, use_cvc5=False):
             if d.arity() == 0:
                 model[d.name()] = str(m[d])
         return Verdict(ob, 'failed', model=model, solver='z3', time_s=dt, z3model=m)
-    # unknown: retry with a different tactic set before giving up
-    for tac in ('qfnra-nlsat', 'smt'):
+    # unknown: retry with polynomial normalisation (sum of monomials), then other tactic sets
+    for tac in ('som', 'qfnra-nlsat', 'smt'):
         try:
-            s2 = z3.Tactic(tac).solver()
+            if tac == 'som':
+                s2 = z3.Then(z3.With('simplify', som=True, hoist_mul=False), 'smt').solver()
+            else:
+                s2 = z3.Tactic(tac).solver()
             s2.set('timeout', timeout_ms)
             for p in ob.pc:
                 s2.add(p)
